@@ -164,6 +164,30 @@ def Obu.wire (o : Obu) : Bytes :=
 
 def serialise (os : List Obu) : Bytes := (os.map Obu.wire).flatten
 
+/-! #### size fields of a chosen width (AV1 spec 4.10.5: leb128() need not be minimal; "it is legal
+   to use more bytes than necessary", at most 8).  Width 0 stands for the minimal encoding. -/
+
+/-- `n` in exactly `w` LEB128 bytes: `w − 1` groups with the continuation bit, then a last group
+    without (`85 80 80 00` = 5 in four bytes).  Faithful iff `n < 128 ^ w`. -/
+def padLeb (n : Nat) : Nat → Bytes
+  | 0 => []
+  | 1 => [(n % 128).toUInt8]
+  | w + 2 => (n % 128 + 128).toUInt8 :: padLeb (n / 128) (w + 1)
+
+/-- an `obu_size` field of width `w` (0 = minimal, what WriteToLeb128 writes) -/
+def sizeField (n w : Nat) : Bytes := if w = 0 then writeLeb n else padLeb n w
+
+/-- a width the AV1 specification allows for the value: minimal, or 1 … 8 bytes that hold it -/
+def widthOK (n w : Nat) : Bool := w == 0 || (decide (w ≤ 8) && decide (n < 128 ^ w))
+
+/-- low-overhead bitstream form with an `obu_size` field of width `w` -/
+def Obu.wireW (o : Obu) (w : Nat) : Bytes :=
+  o.hdr.marshal ++ (if o.hdr.hasSize then sizeField o.payload.length w else []) ++ o.payload
+
+def serialiseW (os : List (Obu × Nat)) : Bytes := (os.map (fun ow => ow.1.wireW ow.2)).flatten
+
+def widthsOK (os : List (Obu × Nat)) : Bool := os.all (fun ow => widthOK ow.1.payload.length ow.2)
+
 def Obu.kept (o : Obu) : Bool := o.hdr.type != obuTemporalDelimiter && o.hdr.type != obuTileList
 
 /-- as transmitted: no size field, flag cleared -/
